@@ -128,3 +128,43 @@ Example C16_example_alias_race :
   snd (verify_eager ex_H ex_zdecomp default_fuel ex_st [115]%N true ex_alias_tree) = Some (WeErrno ENOENT) /\
   snd (verify ex_H ex_zdecomp default_fuel ex_st [115]%N true ex_alias_tree) = None.
 Proof. vm_compute. split; reflexivity. Qed.
+
+(* ---------- S3Store.Prune ---------- *)
+
+(* idFromName accepts the key nameFromID builds, and returns the id *)
+Theorem C16_s3_accepts_canonical : forall prefix unc i, wf_id i ->
+  s3_id_from_name prefix unc (s3_name prefix unc i) = Some i.
+Proof. exact s3_id_from_name_canonical. Qed.
+Print Assumptions C16_s3_accepts_canonical.
+
+(* safe: nothing appears; an object that disappears is the canonical own-format key of an id outside keep *)
+Theorem C16_s3_prune_safe : forall prefix unc (keep : id -> bool) bucket x,
+  (In x (s3_prune prefix unc keep bucket) -> In x bucket) /\
+  (In x bucket -> In x (s3_prune prefix unc keep bucket) \/
+                  exists i, wf_id i /\ keep i = false /\ x = s3_name prefix unc i).
+Proof. exact s3_prune_safe. Qed.
+Print Assumptions C16_s3_prune_safe.
+
+(* complete: no canonical own-format key of an id outside keep remains (RemoveObject of an absent key
+   succeeds, so S3 prune has no error path of its own) *)
+Theorem C16_s3_prune_complete : forall prefix unc (keep : id -> bool) bucket i, wf_id i -> keep i = false ->
+  ~ In (s3_name prefix unc i) (s3_prune prefix unc keep bucket).
+Proof. exact s3_prune_complete. Qed.
+Print Assumptions C16_s3_prune_complete.
+
+Definition k6c := s3_name [112; 47]%N false 6%N.      (* "p/0000/00..06.cacnk" *)
+Definition k6u := s3_name [112; 47]%N true 6%N.
+Definition k7c := s3_name [112; 47]%N false 7%N.
+Example C16_example_s3 :
+  s3_prune [112; 47]%N false (fun i => N.eqb i 7) [k6c; k6u; k7c; [112; 47; 82]%N] = [k6u; k7c; [112; 47; 82]%N] /\
+  (* idFromName only asks that the id START WITH the directory name: "p/00/00..06.cacnk" parses to id 6 *)
+  s3_id_from_name [112; 47]%N false ([112; 47; 48; 48; 47]%N ++ hex_id 6%N ++ ext_of false) = Some 6%N.
+Proof. vm_compute. split; reflexivity. Qed.
+
+(* Finding recorded as a theorem: the temp names of SFTP stores (<chunk name><decimal digits>, sftp.go
+   StoreObject) are accepted by neither format's filter, so no Prune ever removes an abandoned one. *)
+Theorem C16_sftp_temp_never_accepted : forall unc i digits,
+  digits <> [] -> forallb is_digit digits = true ->
+  base_file_id unc (hex_id i ++ ext_of unc ++ digits) = None.
+Proof. exact sftp_temp_never_accepted. Qed.
+Print Assumptions C16_sftp_temp_never_accepted.
